@@ -76,6 +76,25 @@ class P(Prop):
                          f"model={m['clauses'][k] if k < len(m['clauses']) else None}")
             if d:
                 self.fail("corr", "cnf", d, {"c": cj, "seed": seed})
+            # sat.solve against the model run with the proved-complete DPLL instance of the solver contract
+            nodes = sorted(c.graph.nodes)
+            for _ in range(2):
+                k = self.rng.randint(0, min(3, len(nodes)))
+                asm = {x: self.rng.random() < 0.5 for x in self.rng.sample(nodes, k)}
+                if self.rng.random() < 0.1:
+                    asm["zz_missing"] = True
+                o, r = call(cg.sat.solve, c, asm)
+                m = drv.ask({"op": "solve", "c": cj, "assumptions": [[a, b] for a, b in asm.items()], "seed": seed})
+                self.corr_cases += 1
+                d = ""
+                if m["outcome"] != o:
+                    d = f"outcome impl={o} model={m['outcome']}"
+                elif o == "ok" and bool(r) != m["sat"]:
+                    d = f"impl {'SAT' if r else 'UNSAT'}, model {'SAT' if m['sat'] else 'UNSAT'}"
+                elif o == "ok" and m["sat"] and not m["consistent"]:
+                    d = "the model's solution is not a consistent valuation"
+                if d:
+                    self.fail("corr", "solve", f"solve under {asm}: {d}", {"c": cj, "seed": seed, "assumptions": asm})
             if self.too_many():
                 break
 
